@@ -13,15 +13,14 @@
 //!  * roll_forward(p): append p at the back.
 //!  * roll_back(p): p buffered => `Handled`, everything up to (and including)
 //!    p is kept, everything after it dropped; p not buffered => `OutOfScope`
-//!    and the buffer is emptied. The documentation does not say which
-//!    occurrence counts when a point is buffered twice (cannot happen on a real
-//!    chain), so the model accepts truncation at ANY occurrence of p and then
-//!    follows the implementation; which occurrence pallas picks is recorded as
-//!    a diagnostic only.
+//!    and the buffer is emptied. When a point is buffered twice (the property's
+//!    quantifier forces duplicates) the list model scans from the oldest entry,
+//!    so "up to it" ends at the FIRST occurrence: the later copy lies after the
+//!    roll-back point and is dropped with the rest.
 //!  * pop_with_depth(k): with n points buffered, n >= k returns the n-k oldest
 //!    points oldest-first and keeps the k newest; n < k returns nothing and
 //!    changes nothing.
-//!  * position(p): index of p (any index holding p when duplicated), None when
+//!  * position(p): index of the first entry equal to p, None when
 //!    absent; size / latest / oldest / peek as named.
 
 use mc_core::bfs::{self, Outcome};
@@ -110,11 +109,13 @@ fn step(real: &mut RollbackBuffer, model: &mut Vec<Point>, op: Op, diag: Option<
                 if !matches!(eff, RollbackEffect::Handled) {
                     return Err(fail("effect", format!("roll_back({}) on [{}]: point is buffered but effect is OutOfScope", name(&p), render(&before))));
                 }
-                let ok = occ.iter().any(|&k| got[..] == before[..=k]);
-                if !ok {
+                // a list model finds the point by scanning from the oldest entry: "everything up to
+                // it" ends at the FIRST occurrence (everything after that first occurrence, later
+                // copies of the point included, lies beyond the roll-back point)
+                if got[..] != before[..=occ[0]] {
                     return Err(fail(
                         "contents",
-                        format!("roll_back({}) on [{}] left [{}], which is not the buffer up to an occurrence of the point", name(&p), render(&before), render(&got)),
+                        format!("roll_back({}) on [{}] left [{}], the list model keeps [{}] (up to the first occurrence of the point)", name(&p), render(&before), render(&got), render(&before[..=occ[0]])),
                     ));
                 }
                 if let Some(d) = diag {
@@ -169,11 +170,7 @@ fn step(real: &mut RollbackBuffer, model: &mut Vec<Point>, op: Op, diag: Option<
     for i in 0..4u8 {
         let q = point(i);
         let pos = real.position(&q);
-        let ok = match pos {
-            Some(k) => model.get(k) == Some(&q),
-            None => !model.contains(&q),
-        };
-        if !ok {
+        if pos != model.iter().position(|x| *x == q) {
             return Err(fail("position", format!("after {op:?}: position({}) = {pos:?} on [{}]", name(&q), render(model))));
         }
     }
@@ -268,7 +265,7 @@ pub fn run(ctx: Ctx) -> ! {
     }
     if diag.dup_rollbacks.load(Relaxed) > 0 {
         ctx.note(format!(
-            "diagnostic (not a verdict): roll_back to a point buffered more than once happened on {} transitions; pallas truncated at the FIRST occurrence on {} and at the LAST on {} of them (undocumented; the model accepts either)",
+            "diagnostic (not a verdict): roll_back to a point buffered more than once happened on {} transitions; pallas truncated at the FIRST occurrence on {} and at the LAST on {} of them (the list model requires the first)",
             diag.dup_rollbacks.load(Relaxed),
             diag.dup_first.load(Relaxed),
             diag.dup_last.load(Relaxed)
@@ -300,7 +297,7 @@ pub fn run(ctx: Ctx) -> ! {
         &[
             "canonical key = buffer contents as returned by peek(); RollbackBuffer has no other field, so equal contents have equal futures (std VecDeque trusted)",
             "buffer length bounded by L (roll_forward disabled at L); within that bound the search is a fixpoint, i.e. sequences of any length",
-            "roll_back to a point buffered twice: documentation does not say which occurrence; model accepts any",
+            "roll_back / position of a point buffered twice: the list model scans from the oldest entry (first occurrence)",
         ],
     )
 }
